@@ -373,11 +373,11 @@ def join_lines(text):
         elif l.startswith('  ') and re.search(r'\binvoke\b', l) and i + 1 < n and lines[i + 1].strip().startswith('to label'):
             l += ' ' + lines[i + 1].strip()
             i += 1
-        elif l.startswith('  ') and re.match(r'\s+switch\b', l) and not s.endswith(']'):
+        elif l.startswith('  ') and re.match(r'\s+switch\b', l) and not re.search(r'\]\s*(,\s*!.*)?$', s):
             while i + 1 < n:
                 i += 1
                 l += ' ' + lines[i].strip()
-                if lines[i].strip().endswith(']'):
+                if lines[i].strip().startswith(']'):
                     break
         out.append(l)
         i += 1
@@ -933,8 +933,8 @@ class Emitter:
                 return '(%s == %s)' % (a, b)
             if pred == 'ne':
                 return '(%s != %s)' % (a, b)
-            op = {'ult': '<', 'ule': '<=', 'ugt': '>', 'uge': '>=', 'slt': '<', 'sle': '<=', 'sgt': '>', 'sge': '>='}[pred]
-            return '(VP_PTR2INT(%s) %s VP_PTR2INT(%s))' % (a, op, b)
+            op = {'ult': 'LT', 'ule': 'LE', 'ugt': 'GT', 'uge': 'GE', 'slt': 'LT', 'sle': 'LE', 'sgt': 'GT', 'sge': 'GE'}[pred]
+            return 'VP_PTR_%s(%s, %s)' % (op, a, b)
         w = rt[1]
         if pred in ('eq', 'ne'):
             return '(%s %s %s)' % (a, '==' if pred == 'eq' else '!=', b)
@@ -969,8 +969,6 @@ class Emitter:
     # ------------------------------------------------------------ functions
     def emit(self):
         m = self.mod
-        # address-taken functions (for indirect-call dispatch)
-        self.addr_taken = set()
         body_txt = []
         # prototypes
         protos = []
@@ -992,6 +990,9 @@ class Emitter:
                 if any(rx.search(name) for rx in self.opts.get('traps', [])):
                     fdefs.append(self.emit_trap(f))
                     self.trapped.append(name)
+                elif any(rx.search(name) for rx in self.opts.get('empties', [])):
+                    fdefs.append(self.emit_trap(f, empty=True))
+                    self.emptied.append(name)
                 else:
                     fdefs.append(self.emit_func(f))
         for name in m.gorder:
@@ -999,6 +1000,11 @@ class Emitter:
             ct = self.ctype(g['type'])
             cn = cid(name, 'g_')
             if g['external']:
+                # stubs define the retyped ones and __dso_handle; every other external object
+                # (std::cerr, ...) is given zero-initialised storage here
+                if not retype_of(name) and name not in ('__dso_handle',) and ('@' + name) in self.used_externals:
+                    gdefs.append('%s %s; /* external object, zero storage */' % (ct, cn))
+                    self.auto_defined.append(name)
                 continue
             gdefs.append('%s %s = %s;' % (ct, cn, self.const_init(g['type'], g['init'])))
         # prototypes for all functions used
@@ -1019,6 +1025,8 @@ class Emitter:
         out += protos
         out += gdecls
         out += gdefs
+        out.append('#include <stdlib.h>')
+        out += [h[1] for h in self.new_helpers.values()]
         out += self.dispatchers()
         out += fdefs
         out.append(self.emit_init())
@@ -1066,8 +1074,109 @@ class Emitter:
             return self.ctype(t)
         return (s(ret), tuple(s(p) for p in params))
 
+    # ---- class hierarchy (for virtual-call devirtualisation)
+    def build_cha(self):
+        m = self.mod
+        ti = [n for n in m.globals if n.startswith('_ZTI')]
+        import subprocess
+        dem = {}
+        if ti:
+            out = subprocess.run(['c++filt'], input='\n'.join(ti).encode(), stdout=subprocess.PIPE).stdout.decode().split('\n')
+            for n, d_ in zip(ti, out):
+                d_ = d_.replace('typeinfo for ', '')
+                dem[n] = d_
+        def strip_targs(x):
+            outc = []
+            depth = 0
+            for ch in x:
+                if ch == '<':
+                    depth += 1
+                elif ch == '>':
+                    depth -= 1
+                elif depth == 0:
+                    outc.append(ch)
+            return ''.join(outc).replace('(anonymous namespace)::', '')
+        self.ti_class = {n: strip_targs(d_) for n, d_ in dem.items()}
+        self.ti_bases = {}
+        def refs(v, acc):
+            if v is None:
+                return
+            if v[0] == 'global' and v[1].startswith('_ZTI'):
+                acc.add(v[1])
+            elif v[0] == 'agg':
+                for et, ev in v[1]:
+                    refs(ev, acc)
+            elif v[0] == 'cexpr':
+                for x in v[2:]:
+                    if isinstance(x, tuple) and x and isinstance(x[0], str):
+                        refs(x, acc)
+                    elif isinstance(x, list):
+                        for y in x:
+                            if isinstance(y, tuple) and len(y) == 2 and isinstance(y[1], tuple):
+                                refs(y[1], acc)
+        for n in ti:
+            acc = set()
+            refs(m.globals[n]['init'], acc)
+            acc.discard(n)
+            self.ti_bases[n] = acc
+        # vtables: name -> (typeinfo name, [function names or None] of the primary vtable after the 2 header slots)
+        self.vtables = {}
+        def strip(v):
+            while v[0] == 'cexpr' and v[1] in ('bitcast',):
+                v = v[3]
+            return v
+        for n, g in m.globals.items():
+            if not n.startswith('_ZTV') or g['init'] is None or g['init'][0] != 'agg':
+                continue
+            first = g['init'][1][0][1] if g['init'][1] else None
+            if first is None or first[0] != 'agg':
+                continue
+            ents = [strip(ev) for et, ev in first[1]]
+            tinfo = ents[1][1] if len(ents) > 1 and ents[1][0] == 'global' else None
+            fns = []
+            for e in ents[2:]:
+                if e[0] == 'global' and e[1] in m.funcs:
+                    fns.append(e[1])
+                elif e[0] == 'global' and e[1] in m.aliases and m.aliases[e[1]][1][0] == 'global':
+                    fns.append(m.aliases[e[1]][1][1])
+                else:
+                    fns.append(None)
+            self.vtables[n] = (tinfo, fns)
+
+    def derives_from(self, tinfo, cls):
+        """does the class of typeinfo symbol `tinfo' equal or derive from class name `cls'?"""
+        seen = set()
+        work = [tinfo]
+        while work:
+            t = work.pop()
+            if t in seen or t is None:
+                continue
+            seen.add(t)
+            if self.ti_class.get(t) == cls:
+                return True
+            work += list(self.ti_bases.get(t, ()))
+        return False
+
+    def virtual_candidates(self, cls, idx, sh):
+        """functions in slot idx of every vtable whose class derives from cls (None: unknown class)"""
+        known = cls is not None and cls in set(self.ti_class.values())
+        out = []
+        for vn, (tinfo, fns) in sorted(self.vtables.items()):
+            if idx >= len(fns) or fns[idx] is None:
+                continue
+            if known and not self.derives_from(tinfo, cls):
+                continue
+            f = self.mod.funcs.get(fns[idx])
+            if f is None or f.vararg:
+                continue
+            if self.shape(f.ret, [p[0] for p in f.params]) != sh:
+                continue
+            if f not in out:
+                out.append(f)
+        return out
+
     def dispatchers(self):
-        """one dispatcher per indirect-call shape, enumerating address-taken functions"""
+        """one dispatcher per indirect-call shape (and, for virtual calls, static class + slot)"""
         out = []
         cands = {}
         for name in sorted(self.addr_taken):
@@ -1076,12 +1185,17 @@ class Emitter:
                 continue
             sh = self.shape(f.ret, [p[0] for p in f.params])
             cands.setdefault(sh, []).append(f)
-        for sh, (dname, fty) in sorted(self.dispatch_needed.items()):
+        for key, (dname, fty) in sorted(self.dispatch_needed.items(), key=lambda kv: kv[1][0]):
+            sh, vcls, vidx = key
             ret, params, va = fty[1], fty[2], fty[3]
             rct = self.ctype(ret)
             args = ', '.join('%s a%d' % (self.ctype(p), i) for i, p in enumerate(params))
-            lines = ['static %s %s(void *fp%s%s) {' % (rct, dname, ', ' if args else '', args)]
-            for f in cands.get(sh, []):
+            lines = ['static %s %s(void *fp%s%s) { /* %s slot %s */' % (rct, dname, ', ' if args else '', args, vcls, vidx)]
+            if vidx is not None:
+                flist = self.virtual_candidates(vcls, vidx, sh)
+            else:
+                flist = cands.get(sh, [])
+            for f in flist:
                 ext = (not f.isdef) or f.name in self.overrides
                 cargs = []
                 for i, (pt, pn, pa) in enumerate(f.params):
@@ -1116,6 +1230,26 @@ class Emitter:
 
     dispatch_needed = {}
 
+    new_helpers = {}
+    def new_helper(self, et):
+        """typed operator new: CBMC gives the object the element type when the malloc argument
+        is literally sizeof(T) * count"""
+        ct = self.ctype(et)
+        if ct in self.new_helpers:
+            return self.new_helpers[ct][0]
+        name = 'vp_new_' + re.sub(r'[^A-Za-z0-9]', '_', ct)
+        lines = ['static %s *%s(uint64_t nbytes) {' % (ct, name),
+                 '  uint64_t cnt = nbytes / sizeof(%s);' % ct,
+                 '  %s *p;' % ct,
+                 '#ifdef __CPROVER__']
+        ladder = [1, 2, 3, 4, 5, 6, 7, 8, 12, 16, 24, 32, 64, 128]
+        for i, k in enumerate(ladder):
+            lines.append('  %sif (cnt %s %d) p = (%s*)malloc(sizeof(%s) * %d);' % ('else ' if i else '', '==' if k <= 8 else '<=', k, ct, ct, k))
+        lines.append('  else { VP_ASSERT(0, "typed allocation of more than 128 elements (outside the modelled sizes)"); VP_ASSUME(0); p = 0; }')
+        lines += ['#else', '  p = (%s*)malloc(nbytes ? nbytes : 1);' % ct, '#endif', '  VP_ASSUME(p != 0);', '  return p;', '}']
+        self.new_helpers[ct] = (name, '\n'.join(lines))
+        return name
+
     def zero(self, t):
         rt = self.resolve(t)
         if rt[0] in ('struct', 'arr'):
@@ -1123,13 +1257,17 @@ class Emitter:
         return '((%s)0)' % self.ctype(t)
 
     trapped = []
-    def emit_trap(self, f):
+    auto_defined = []
+    emptied = []
+    def emit_trap(self, f, empty=False):
         ps = ['%s a%d' % (self.ctype(t), i) for i, (t, n, a) in enumerate(f.params)]
         if f.vararg and ps:
             ps.append('...')
         if not ps:
             ps = ['void']
         body = '  VP_ASSERT(0, "trap: %s reached (declared unreachable by the harness)");\n  VP_ASSUME(0);\n' % f.name[:60]
+        if empty:
+            body = '  /* body replaced by an empty model (--empty) */\n'
         if f.ret[0] != 'void':
             body += '  return %s;\n' % self.zero(f.ret)
         return '%s %s(%s) {\n%s}' % (self.ctype(f.ret), self.fname(f.name), ', '.join(ps), body)
@@ -1209,6 +1347,12 @@ class FuncEmitter:
         self.tmpn = 0
         self.bitcast_src = {}   # local -> (srctype, srcname) for look-through of i8* casts
         self.zext64 = {}        # local i128 defined as zext of an i64 value -> C expr of that value
+        self.p2i = {}           # local iN defined by ptrtoint -> C expr of the pointer
+        self.icmp_here = {}
+        self.vt_of = {}         # local holding a loaded vptr -> static class name of the object
+        self.slot_of = {}       # local = &vptr[idx] -> (class, idx)
+        self.fp_of = {}         # local holding a function pointer loaded from a vtable slot -> (class, idx)
+        self.new_type = {}      # local i8* returned by operator new -> element type it is cast to
         self.blocks = []
 
     def lname(self, n):
@@ -1256,6 +1400,18 @@ class FuncEmitter:
                 toks = strip_meta(lex(l))
                 ins.append(self.parse_ins(toks, l))
             parsed.append((bn, ins))
+        # operator new results and the pointer type they are first cast to
+        newres = {}
+        for bn, ins in parsed:
+            for i in ins:
+                if i['op'] in ('call', 'invoke') and i['dest'] is not None:
+                    cal = self.strip_cast(i['callee'])
+                    if cal[0] == 'global' and cal[1] in ('_Znwm', '_Znam'):
+                        newres[i['dest']] = i
+                elif i['op'] == 'bitcast' and i['a'][0] == 'local' and i['a'][1] in newres and i['a'][1] not in self.new_type:
+                    rt = E.resolve(i['rtype'])
+                    if rt[0] == 'ptr' and E.resolve(rt[1])[0] in ('struct', 'int', 'ptr', 'arr'):
+                        self.new_type[i['a'][1]] = rt[1]
         # parameter types
         for (t, n, a) in f.params:
             self.types[n] = t
@@ -1308,6 +1464,8 @@ class FuncEmitter:
 
     # ------------------------------------------------------------ parse
     def parse_ins(self, toks, line):
+        if '@llvm.experimental.noalias.scope.decl' in line or '@llvm.dbg.' in line:
+            return dict(op='fence', dest=None, line=line)
         p = P(toks, self.mod)
         dest = None
         if p.peek()[0] in ('id', 'qid') and p.peek(1)[1] == '=':
@@ -1580,7 +1738,11 @@ class FuncEmitter:
                 if 'nuw' in fl:
                     c.append('VP_UB(!VP_U%s_OVF(%d, %s, %s), "UB: unsigned overflow in %s nuw");' % (op.upper(), w, a, b, op))
             pt = E.uprom(w)
-            if op == 'mul' and w == 64 and I['a'][0] == 'local' and I['b'][0] == 'local':
+            if op == 'sub' and w == 64 and I['a'][0] == 'local' and I['b'][0] == 'local' \
+                    and I['a'][1] in self.p2i and I['b'][1] in self.p2i:
+                # pointer difference: keep it a pointer operation so that symbolic execution folds it
+                c.append('%s = VP_PTRDIFF(%s, %s);' % (D, self.p2i[I['a'][1]], self.p2i[I['b'][1]]))
+            elif op == 'mul' and w == 64 and I['a'][0] == 'local' and I['b'][0] == 'local':
                 c.append('%s = (uint64_t)vp_mul64x64(%s, %s);' % (D, a, b))
             elif op == 'mul' and w == 128 and I['a'][0] == 'local' and I['b'][0] == 'local' \
                     and I['a'][1] in self.zext64 and I['b'][1] in self.zext64:
@@ -1615,7 +1777,11 @@ class FuncEmitter:
                 c.append('VP_UB(!(%s == %s && %s == -1), "UB: signed division overflow");' % (a, E.int_lit(t, 1 << (w - 1)), sb))
                 c.append('%s = %s;' % (D, E.mask(w, '%s %s %s' % (sa, cop, sb))))
         elif op == 'icmp':
-            c.append('%s = %s;' % (D, E.icmp_expr(I['pred'], I['t'], self.val(I['t'], I['a']), self.val(I['t'], I['b']))))
+            ex = E.icmp_expr(I['pred'], I['t'], self.val(I['t'], I['a']), self.val(I['t'], I['b']))
+            c.append('%s = %s;' % (D, ex))
+            # remembered so that a branch in the same block can test the comparison itself
+            # (CBMC filters pointer value sets on `if (p != NULL)' but not on a boolean temporary)
+            self.icmp_here[d] = (self.cur_block, ex)
         elif op in ('zext', 'trunc'):
             w2 = E.resolve(I['rtype'])[1]
             c.append('%s = %s;' % (D, E.mask(w2, self.val(I['t'], I['a']))))
@@ -1640,6 +1806,8 @@ class FuncEmitter:
         elif op == 'ptrtoint':
             w2 = E.resolve(I['rtype'])[1]
             c.append('%s = %s;' % (D, E.mask(w2, 'VP_PTR2INT(%s)' % self.val(I['t'], I['a']))))
+            if w2 == 64:
+                self.p2i[d] = self.val(I['t'], I['a'])
         elif op == 'select':
             c.append('%s = %s ? %s : %s;' % (D, self.val(INT(1), I['c']), self.val(I['t'], I['a']), self.val(I['t'], I['b'])))
         elif op == 'freeze':
@@ -1660,6 +1828,22 @@ class FuncEmitter:
                 raise Unsupported("dynamic alloca")
         elif op == 'load':
             c.append('%s = *%s;' % (D, self.val(I['pt'], I['a'])))
+            a = I['a']
+            if a[0] == 'local':
+                lt = E.resolve(I['t'])
+                if a[1] in self.bitcast_src and lt[0] == 'ptr' and E.resolve(lt[1])[0] == 'ptr' \
+                        and E.resolve(E.resolve(lt[1])[1])[0] == 'func':
+                    st, sn = self.bitcast_src[a[1]]
+                    rst = st
+                    cls = None
+                    if rst[0] == 'ptr' and rst[1][0] == 'named':
+                        cls = re.sub(r'\.\d+$', '', re.sub(r'^(class|struct)\.', '', rst[1][1]))
+                        cls = re.sub(r'^\(anonymous namespace\)::', '', cls)
+                    self.vt_of[d] = cls
+                elif a[1] in self.slot_of:
+                    self.fp_of[d] = self.slot_of[a[1]]
+                elif a[1] in self.vt_of and lt[0] == 'ptr' and E.resolve(lt[1])[0] == 'func':
+                    self.fp_of[d] = (self.vt_of[a[1]], 0)
         elif op == 'store':
             c.append('*%s = %s;' % (self.val(I['pt'], I['b']), self.val(I['t'], I['a'])))
         elif op == 'getelementptr':
@@ -1668,11 +1852,16 @@ class FuncEmitter:
             e, rt = E.gep_expr(I['bt'], base, idxs)
             self.declare(d, PTR(rt))
             c.append('%s = %s;' % (D, e))
+            if I['base'][0] == 'local' and I['base'][1] in self.vt_of and len(I['idx']) == 1 and I['idx'][0][1][0] == 'int':
+                self.slot_of[d] = (self.vt_of[I['base'][1]], I['idx'][0][1][1])
         elif op == 'br':
             if I['cond'] is None:
                 c.append(self.goto(I['t1']))
             else:
-                c.append('if (%s) { %s } else { %s }' % (self.val(INT(1), I['cond']), self.goto(I['t1']), self.goto(I['t2'])))
+                cond = self.val(INT(1), I['cond'])
+                if I['cond'][0] == 'local' and I['cond'][1] in self.icmp_here and self.icmp_here[I['cond'][1]][0] == self.cur_block:
+                    cond = self.icmp_here[I['cond'][1]][1]
+                c.append('if (%s) { %s } else { %s }' % (cond, self.goto(I['t1']), self.goto(I['t2'])))
         elif op == 'switch':
             v = self.val(I['t'], I['v'])
             parts = []
@@ -1782,6 +1971,17 @@ class FuncEmitter:
                 if I['op'] == 'invoke':
                     c.append(self.goto(I['normal']))
                 return
+            if name in ('_Znwm', '_Znam') and d in self.new_type:
+                et = self.new_type[d]
+                sz = E.sizeof(et)
+                a0 = args[0]
+                ok = sz > 0 and (a0[1][0] != 'int' or a0[1][1] % sz == 0)
+                if ok:
+                    helper = E.new_helper(et)
+                    c.append('%s = (uint8_t*)%s(%s);' % (D, helper, self.val(a0[0], a0[1])))
+                    if I['op'] == 'invoke':
+                        c.append(self.goto(I['normal']))
+                    return
             f = self.mod.funcs.get(name)
             if f is None:
                 raise Unsupported("call to unknown function " + name)
@@ -1808,9 +2008,13 @@ class FuncEmitter:
             # indirect
             fty = ('func', rt, tuple(t for (t, a, pa) in args), False)
             sh = E.shape(rt, [t for (t, a, pa) in args])
-            if sh not in E.dispatch_needed:
-                E.dispatch_needed[sh] = ('vp_dispatch_%d' % len(E.dispatch_needed), fty)
-            dname, dfty = E.dispatch_needed[sh]
+            vcls, vidx = None, None
+            if callee[0] == 'local' and callee[1] in self.fp_of:
+                vcls, vidx = self.fp_of[callee[1]]
+            key = (sh, vcls, vidx)
+            if key not in E.dispatch_needed:
+                E.dispatch_needed[key] = ('vp_dispatch_%d' % len(E.dispatch_needed), fty)
+            dname, dfty = E.dispatch_needed[key]
             fp = self.val(PTR(fty), callee)
             cargs = ['(void*)%s' % fp]
             for (t, a, pa), pt in zip(args, dfty[2]):
@@ -2023,15 +2227,21 @@ def translate(text, opts):
     mod = parse_module(text)
     E = Emitter(mod, opts)
     E.dispatch_needed = {}
+    E.new_helpers = {}
     E.pending_structs = []
     E.addr_taken = scan_addr_taken(mod, text)
+    E.build_cha()
     E.trapped = []
+    E.emptied = []
+    E.auto_defined = []
     src = E.emit()
     info = dict(
         functions=[n for n in mod.forder if mod.funcs[n].isdef and n not in E.overrides and not n.startswith('llvm.')],
         externals=sorted(E.used_externals),
         addr_taken=sorted(E.addr_taken),
         trapped=E.trapped,
+        emptied=E.emptied,
+        auto_defined_globals=E.auto_defined,
     )
     return src, info
 
@@ -2046,6 +2256,7 @@ def main():
     ap.add_argument('--info')
     ap.add_argument('--candidate', action='append', default=[])
     ap.add_argument('--trap', action='append', default=[])
+    ap.add_argument('--empty', action='append', default=[])
     a = ap.parse_args()
     ov = list(a.override)
     if a.override_file:
@@ -2057,7 +2268,8 @@ def main():
             n, r, ps = c.split(':')
             cands.append((n, r, [x for x in ps.split(',') if x]))
         src, info = translate(text, dict(override=ov, erase_sigs=not a.no_erase_sigs, candidates=cands,
-                                         traps=[re.compile(x) for x in a.trap]))
+                                         traps=[re.compile(x) for x in a.trap],
+                                         empties=[re.compile(x) for x in a.empty]))
     except Unsupported as e:
         sys.stderr.write("ll2c: UNSUPPORTED: %s\n" % e)
         sys.exit(3)
